@@ -115,4 +115,32 @@ def judge(ln):
             it = iter(seq)
             if all(any(p == v for p in it) for v in out): return ('ok', '')
         return ('fail', 'ser-vertices', 'serialised numbers are not the loop vertices in order')
+    if op == 'json.ser.poly':
+        # a polygon (with holes) is written as ONE outline: it must enclose the polygon's net area with the outer loop's orientation
+        A = ln.args
+        outer, i = rd_pts(A, 0)
+        nh = int(A[i]); i += 1
+        holes = []
+        for _ in range(nh):
+            h, i = rd_pts(A, i); holes.append(h)
+        if outer is None or any(h is None for h in holes): return ('skip', 'malformed-operand')
+        R = ln.res
+        if R[0] == 'build-err': return ('skip', 'not-built')
+        if R[0] == 'panic': return ('fail', 'panic', 'serialisation of a polygon panicked')
+        if R[0] != 'ok': return ('skip', 'ser-err')        # an Err of the merge is C09/C12's business (known finding merge-drops-vertex)
+        if max(fnorm(p) for p in outer) > 1e6: return ('skip', 'band')
+        n = int(R[1]); nums = R[2:2 + n]
+        if n % 3 != 0 or n < 9: return ('fail', 'ser-arity', 'a polygon was serialised as %d numbers' % n)
+        if not all(is_finite(t) for t in nums): return ('fail', 'ser-non-finite', 'serialised polygon has non-finite numbers')
+        out = [(frac(nums[3*j]), frac(nums[3*j+1]), frac(nums[3*j+2])) for j in range(n // 3)]
+        Vo = vector_area_rel(outer)
+        Vm = vector_area_rel(out)
+        net = fnorm(Vo) - sum(fnorm(vector_area_rel(h)) for h in holes)
+        got = fnorm(Vm)
+        dropped = max(len(outer) + sum(len(h) + 2 for h in holes) - len(out), 0)
+        tol = 1e-3 if FMT.name == 'f32' else 1e-9
+        if dot(Vm, Vo) <= 0: return ('fail', 'ser-poly-orientation', 'the serialised outline of a polygon has the opposite orientation')
+        if abs(got - net) > tol * 100 * max(net, 1.0) + 5e-6 * dropped:
+            return ('fail', 'ser-poly-net-area', 'the serialised outline encloses %.12g, the polygon net area is %.12g (%d holes)' % (got, net, nh))
+        return ('ok', '')
     return ('skip', 'leaf')
